@@ -9,7 +9,7 @@ import tempfile
 from . import common as C
 
 PID = "C04"
-POSITIONS = ["plain", "decorated", "async", "if", "else", "elif", "try", "except", "tryelse", "finally", "with", "for", "while", "match"]
+POSITIONS = ["plain", "decorated", "decorated_multiline", "decorated_gap", "decorated_async", "multiline_signature", "async", "if", "else", "elif", "try", "except", "tryelse", "finally", "with", "for", "while", "match"]
 
 
 class DefGen:
@@ -34,7 +34,7 @@ class DefGen:
             sib.append((kind, nm))
             kids = self.defs(depth + 1, kind == "cls", 2) if (depth < 3 and self.rng.random() < 0.55) else []
             pos = self.rng.choice(POSITIONS)
-            if kind == "cls" and pos == "async":
+            if kind == "cls" and pos in ("async", "decorated_async", "multiline_signature"):
                 pos = "plain"
             out.append({"kind": kind, "name": nm, "kids": kids, "pos": pos, "in_class": in_class})
         return out
@@ -82,9 +82,17 @@ def render(defs, indent, lines):
         if pos == "decorated":
             lines.append(J + "@deco")
             lines.append(J + "@other.deco(1)")
+        if pos == "decorated_multiline":
+            lines += [J + "@deco", J + "@other.deco(", J + "    1,", J + "    key=[2,", J + "         3],", J + ")"]
+        if pos == "decorated_gap":
+            lines += [J + "@other.deco(1)", J + "# a comment between the decorator and the definition", "", J + "# another"]
+        if pos == "decorated_async":
+            lines += [J + "@deco"]
         if d["kind"] == "fn":
             args = "self, a" if d["in_class"] else "a"
-            lines.append(J + ("async def" if pos == "async" else "def") + " %s(%s):" % (d["name"], args))
+            if pos == "multiline_signature":
+                args = args.replace("a", "\n" + J + "        a,\n" + J + "        *rest,\n" + J)
+            lines.append(J + ("async def" if pos in ("async", "decorated_async") else "def") + " %s(%s):" % (d["name"], args))
             lines.append(J + "    value = a")
             render(d["kids"], inner + 1, lines)
             lines.append(J + "    return value")
@@ -149,7 +157,7 @@ def run(tier, seed, replay=None):
     fixed = []
     for pos in POSITIONS:
         fixed.append({"kind": "fn", "name": "f_" + pos, "kids": [{"kind": "fn", "name": "inner_" + pos, "kids": [], "pos": "plain", "in_class": False}], "pos": pos, "in_class": False})
-        if pos != "async":
+        if pos not in ("async", "decorated_async", "multiline_signature"):
             fixed.append({"kind": "cls", "name": "C_" + pos, "kids": [{"kind": "fn", "name": "meth", "kids": [], "pos": pos, "in_class": True},
                                                                      {"kind": "cls", "name": "Inner_" + pos, "kids": [], "pos": "plain", "in_class": True}], "pos": pos, "in_class": False})
     mods.append(fixed)
